@@ -24,7 +24,7 @@ From Coq Require Import ZArith List String Bool Permutation.
 From Model Require Import PyBase Graph Determinism.
 From Model Require Morgan Fingerprint Rings Iso.
 From Gen Require Import SetAudit.
-From Proofs Require Import DeterminismProofs DeterminismExt.
+From Proofs Require Import DeterminismProofs DeterminismExt DeterminismRings.
 From Proofs Require MorganProofs FingerprintProofs RingsProofs IsoLazyProofs.
 Import ListNotations.
 Open Scope list_scope.
@@ -273,6 +273,39 @@ Theorem C19_ext_examples :
   sort_by (fun z => z) [8; 1; 4] = [1; 4; 8].
 Proof. exact ext_examples. Qed.
 Print Assumptions C19_ext_examples.
+
+(* ---- (b3) the two-element unpack of rings.py:
+        n, m = common;  c = _canonic_ring(( *_ring_scissors(c, n, m), *_ring_scissors(r, m, n)[1:-1])) ---- *)
+
+(* _ring_scissors on a ring bond a-b: the spelling from a to b; arguments exchanged: the same walk backwards *)
+Theorem C19_scissors_pair : forall ring a b, NoDup ring -> (3 <= List.length ring)%nat -> cyc_adj ring a b ->
+  exists I, Rings.ring_scissors ring a b = Ok (a :: I ++ [b]) /\ Rings.ring_scissors ring b a = Ok (b :: rev I ++ [a]) /\
+            Permutation ring (a :: I ++ [b]).
+Proof. exact scissors_pair. Qed.
+Print Assumptions C19_scissors_pair.
+
+(* both enumerations of the two-member set give the same merged ring (and it is computed without error) *)
+Theorem C19_merged_ring_sym : forall c r n m,
+  NoDup c -> NoDup r -> (3 <= List.length c)%nat -> (3 <= List.length r)%nat ->
+  cyc_adj c n m -> cyc_adj r n m ->
+  (forall x, In x c -> In x r -> x = n \/ x = m) ->
+  merged_ring c r n m = merged_ring c r m n /\ exists ring, merged_ring c r n m = Ok ring.
+Proof. exact merged_ring_sym. Qed.
+Print Assumptions C19_merged_ring_sym.
+
+Theorem C19_unpack_merged_ring : forall c r n m e,
+  NoDup c -> NoDup r -> (3 <= List.length c)%nat -> (3 <= List.length r)%nat -> cyc_adj c n m -> cyc_adj r n m ->
+  (forall x, In x c -> In x r -> x = n \/ x = m) -> Permutation [n; m] e ->
+  unpack2 (merged_ring c r) e = unpack2 (merged_ring c r) [n; m].
+Proof. exact unpack_merged_ring. Qed.
+Print Assumptions C19_unpack_merged_ring.
+
+Theorem C19_merged_ring_example :
+  merged_ring [1; 2; 3; 4] [3; 4; 5; 6; 7] 3 4 = Ok [1; 2; 3; 7; 6; 5; 4] /\
+  merged_ring [1; 2; 3; 4] [3; 4; 5; 6; 7] 4 3 = Ok [1; 2; 3; 7; 6; 5; 4] /\
+  cyc_adj [1; 2; 3; 4] 3 4 /\ cyc_adj [3; 4; 5; 6; 7] 3 4.
+Proof. exact merged_ring_example. Qed.
+Print Assumptions C19_merged_ring_example.
 
 (* ---- (b) order_free_*: restated from the proof files of the owning properties ---- *)
 
